@@ -20,7 +20,39 @@ impl SlF for &[f64] { fn items(self) -> Vec<f64> { self.to_vec() } }
 impl SlF for std::collections::vec_deque::Iter<'_, f64> { fn items(self) -> Vec<f64> { self.cloned().collect() } }
 impl SlF for crate::backends::ArrayView1<'_, f64> { fn items(self) -> Vec<f64> { self.iter().cloned().collect() } }
 
+/// the mutable siblings of the accessors: `try_as_slice_mut` (when offered it is the logical
+/// sequence) and `Vec1::sort_unstable_by`, which sorts through it or through a copy, on the owned
+/// containers — Vec, VecDeque in a rotation, Array1 in standard layout and with an inverted axis
+/// (contiguous, stride -1) — and the offered slice of forward / reversed `ArrayViewMut1`.
+/// `<slice or N>;<contents after sorting ascending | ->`
+fn accmut(b: &str, xs: &[f64]) -> String {
+    use crate::backends::{s, Array1};
+    macro_rules! own { ($c:expr) => {{
+        let mut c = $c;
+        let sl = match c.try_as_slice_mut() { Some(s) => toks(&s.to_vec()), None => "N".into() };
+        let ok = Vec1::sort_unstable_by(&mut c, |a: &f64, b: &f64| a.partial_cmp(b).unwrap()).is_ok();
+        let it: Vec<f64> = c.titer().collect();
+        format!("{};{}{}", sl, if ok { "" } else { "E:" }, toks(&it))
+    }} }
+    let rev: Vec<f64> = xs.iter().rev().cloned().collect();
+    match b {
+        "vec" => own!(xs.to_vec()),
+        "nd" => own!(Array1::from_vec(xs.to_vec())),
+        "ndinv" => own!({ let mut a = Array1::from_vec(rev.clone()); a.invert_axis(tevec::export::ndarray::Axis(0)); a }),
+        "ndvm" => { let mut a = Array1::from_vec(xs.to_vec()); let mut v = a.view_mut(); let sl = match v.try_as_slice_mut() { Some(s) => toks(&s.to_vec()), None => "N".into() }; format!("{};-", sl) },
+        "ndvm-1" => { let mut a = Array1::from_vec(rev.clone()); let mut v = a.slice_mut(s![..;-1]); let sl = match v.try_as_slice_mut() { Some(s) => toks(&s.to_vec()), None => "N".into() }; format!("{};-", sl) },
+        _ => match b.strip_prefix("deque") {
+            Some(k) => own!(crate::backends::deque_rot(&xs.to_vec(), k.parse().unwrap_or(0))),
+            None => "?badcase".into(),
+        },
+    }
+}
+
 pub fn run(r: &Req) -> Option<String> {
+    if r.f == "accmut" {
+        let xs = crate::types::as_f64(&r.series("xs"));
+        return Some(match std::panic::catch_unwind(|| accmut(r.s("b"), &xs)) { Ok(s) => s, Err(_) => "P".into() });
+    }
     if r.f != "acc" {
         return None;
     }
@@ -94,6 +126,16 @@ pub fn run(r: &Req) -> Option<String> {
 }
 
 pub fn compare(r: &Req, imp: &str, model: &str) -> Option<bool> {
+    if r.f == "accmut" {
+        // the contiguous view is optional; when offered it is the logical sequence. The sorted
+        // contents (owned containers) are the sorted sequence.
+        let (a, m): (Vec<&str>, Vec<&str>) = (imp.split(';').collect(), model.split(';').collect());
+        if a.len() != 2 || m.len() != 2 {
+            return Some(false);
+        }
+        let mode = crate::cmp::Mode::of("f64");
+        return Some((a[0] == "N" || crate::cmp::line_eq(a[0], m[0], mode)) && (a[1] == "-" || crate::cmp::line_eq(a[1], m[1], mode)));
+    }
     if r.f != "acc" {
         return None;
     }
@@ -127,6 +169,9 @@ pub fn valid_case(r: &Req) -> bool {
     if r.f == "acc" {
         return true;
     }
+    if r.f == "accmut" {
+        return !r.list("xs").iter().any(|x| *x == "_") && (matches!(r.s("b"), "vec" | "nd" | "ndinv" | "ndvm" | "ndvm-1") || r.s("b").starts_with("deque"));
+    }
     if r.f == "vcut" {
         return super::c14::valid_case(r) && matches!(r.s("oc"), "vec" | "deque" | "nd") && matches!(r.s("cm"), "plain" | "trusted");
     }
@@ -146,6 +191,15 @@ pub fn generate(tier: &str, rng: &mut Rng) -> (Vec<String>, bool) {
         for _ in 0..(if thorough { 200 } else { 20 }) {
             let len = 5 + rng.below(if *b == "arr" { 4 } else { 30 });
             out.push(format!("acc b={} xs={}", b, join(&rand_series(rng, len, 8, false, true))));
+        }
+    }
+    // (a') the mutable siblings: the offered mutable slice and an in-place sort, owned containers incl.
+    //      an Array1 with an inverted axis, forward and reversed mutable views
+    for b in ["vec", "deque0", "deque1", "deque3", "nd", "ndinv", "ndvm", "ndvm-1"] {
+        for len in 0..=(if thorough { 5 } else { 4 }) {
+            for s in all_series(&["3", "1", "2"], len) {
+                out.push(format!("accmut b={} xs={}", b, join(&s)));
+            }
         }
     }
     // (c) a fallible mapping collected into every output container by both fallible collectors: the labels,
